@@ -1,7 +1,7 @@
 SPECIFICATION Spec
 CONSTANTS
-  Ext = FALSE
-  FixTop = FALSE
+  Ext = TRUE
+  FixTop = TRUE
   AllowAlias = FALSE
-INVARIANTS MemoSound
+INVARIANTS MemoSound Export
 CHECK_DEADLOCK FALSE
